@@ -264,6 +264,122 @@ theorem fixedInfo_injective (alg apu apv alg' apu' apv' : Bytes) (bits bits' : N
   obtain ⟨hv, r3⟩ := lenPrefixed_append_inj apv apv' (u32 bits) (u32 bits') h3 h3' r2
   exact ⟨ha, hu, hv, u32_injective _ _ hb hb' r3⟩
 
+/-! ### general JSON serialization -/
+
+theorem firstAuthentic_spec (P : JPrims) (aad : Bytes) : ∀ (rs : List Recipient) (cek : Bytes),
+    firstAuthentic P aad rs = some cek → ∃ r ∈ rs, P.unwrap r = some cek ∧ (P.dec cek aad).isSome = true := by
+  intro rs
+  induction rs with
+  | nil => intro cek h; cases h
+  | cons r rest ih =>
+    intro cek h
+    simp only [firstAuthentic] at h
+    cases hu : P.unwrap r with
+    | none =>
+      simp only [hu] at h
+      obtain ⟨r', hm, h'⟩ := ih cek h
+      exact ⟨r', List.mem_cons_of_mem _ hm, h'⟩
+    | some c =>
+      simp only [hu] at h
+      split at h
+      · rename_i hd
+        injection h with h; subst h
+        exact ⟨r, List.mem_cons_self, hu, hd⟩
+      · obtain ⟨r', hm, h'⟩ := ih cek h
+        exact ⟨r', List.mem_cons_of_mem _ hm, h'⟩
+
+/-- an accepted JSON serialization: some recipient entry unwrapped to a CEK under which the content
+    authenticated with AAD = received protected text (+ "." + received aad text) -/
+theorem json_accept_implies_authenticated (P : JPrims) (j : JsonJwe) (keyKid : Option String) (pt : Bytes)
+    (h : deserializeJson P j keyKid = some pt) :
+    ∃ r ∈ j.recipients, ∃ cek, P.unwrap r = some cek ∧ P.dec cek (jsonAad j) = some pt := by
+  unfold deserializeJson at h
+  cases hc : chooseCek P j keyKid with
+  | none => simp [hc] at h
+  | some cek =>
+    simp only [hc] at h
+    unfold chooseCek at hc
+    simp only at hc
+    split at hc
+    · rename_i r hfind
+      have hm : r ∈ j.recipients := by
+        cases keyKid with
+        | none => simp at hfind
+        | some k => exact List.mem_of_find?_eq_some hfind
+      exact ⟨r, hm, cek, hc, h⟩
+    · obtain ⟨r, hm, hu, _⟩ := firstAuthentic_spec P _ _ _ hc
+      exact ⟨r, hm, cek, hu, h⟩
+
+/-- **every recipient can decrypt**: if the recipient's own entry unwraps to a CEK that authenticates
+    the content, and no EARLIER entry does (foreign entries either fail to unwrap or — RSA1_5's
+    implicit rejection — unwrap to a key that does not authenticate), the loop finds it. This is the
+    statement the pre-fix loop ("first entry that unwraps") violated. -/
+theorem json_every_recipient_decrypts (P : JPrims) (aad : Bytes) (pre : List Recipient) (own : Recipient) (post : List Recipient)
+    (cek pt : Bytes) (hown : P.unwrap own = some cek) (hdec : P.dec cek aad = some pt)
+    (hpre : ∀ r ∈ pre, ∀ c, P.unwrap r = some c → P.dec c aad = none) :
+    firstAuthentic P aad (pre ++ own :: post) = some cek := by
+  induction pre with
+  | nil => simp [firstAuthentic, hown, hdec]
+  | cons r rest ih =>
+    have ih' := ih (fun r' hr' => hpre r' (List.mem_cons_of_mem _ hr'))
+    simp only [List.cons_append, firstAuthentic]
+    cases hu : P.unwrap r with
+    | none => exact ih'
+    | some c =>
+      have := hpre r List.mem_cons_self c hu
+      simp [this, ih']
+
+theorem json_recipient_gets_plaintext (P : JPrims) (j : JsonJwe) (pre : List Recipient) (own : Recipient) (post : List Recipient)
+    (cek pt : Bytes) (hrec : j.recipients = pre ++ own :: post)
+    (hown : P.unwrap own = some cek) (hdec : P.dec cek (jsonAad j) = some pt)
+    (hpre : ∀ r ∈ pre, ∀ c, P.unwrap r = some c → P.dec c (jsonAad j) = none) :
+    deserializeJson P j none = some pt := by
+  have := json_every_recipient_decrypts P (jsonAad j) pre own post cek pt hown hdec hpre
+  simp [deserializeJson, chooseCek, hrec, this, hdec]
+
+/-- the pre-fix loop — the first entry that merely unwraps — loses a legitimate recipient: a concrete
+    two-entry message on which it fails while the repaired loop succeeds -/
+def firstUnwrapping (P : JPrims) : List Recipient → Option Bytes
+  | [] => none
+  | r :: rest => match P.unwrap r with | some c => some c | none => firstUnwrapping P rest
+
+def implicitRejection : JPrims :=
+  { unwrap := fun r => if r.ek = [1] then some [0xAA] else if r.ek = [2] then some [0xBB] else none,   -- entry 1 is foreign: a random key comes out
+    dec := fun cek _ => if cek = [0xBB] then some [112, 116] else none }
+
+theorem first_unwrapping_loop_loses_recipient :
+    (firstUnwrapping implicitRejection [⟨none, [1]⟩, ⟨none, [2]⟩]).bind (fun c => implicitRejection.dec c []) = none ∧
+    (firstAuthentic implicitRejection [] [⟨none, [1]⟩, ⟨none, [2]⟩]).bind (fun c => implicitRejection.dec c []) = some [112, 116] := by decide
+
+/-- the AAD binds both texts: with base64url texts (no '.') the pair (protected, aad) is determined by the AAD -/
+theorem jsonAad_injective (p a p' a' : List UInt8) (hp : (46 : UInt8) ∉ p) (hp' : (46 : UInt8) ∉ p')
+    (h : p ++ [46] ++ a = p' ++ [46] ++ a') : p = p' ∧ a = a' := by
+  have key : ∀ (x y b b' : List UInt8), (46 : UInt8) ∉ x → (46 : UInt8) ∉ y → x ++ 46 :: b = y ++ 46 :: b' → x = y ∧ b = b' := by
+    intro x
+    induction x with
+    | nil =>
+      intro y b b' _ hy h
+      cases y with
+      | nil => simp at h; exact ⟨rfl, h⟩
+      | cons c y => simp at h; exact absurd (h.1 ▸ List.mem_cons_self) hy
+    | cons c x ih =>
+      intro y b b' hx hy h
+      cases y with
+      | nil => simp at h; exact absurd (h.1 ▸ List.mem_cons_self) hx
+      | cons d y =>
+        simp only [List.cons_append, List.cons.injEq] at h
+        obtain ⟨rfl, h⟩ := h
+        have := ih y b b' (fun hm => hx (List.mem_cons_of_mem _ hm)) (fun hm => hy (List.mem_cons_of_mem _ hm)) h
+        exact ⟨by rw [this.1], this.2⟩
+  exact key p p' a a' hp hp' (by simpa [List.append_assoc] using h)
+
+/-- … and a message with an "aad" member never has the AAD of one without (for the same or any dot-free protected text) -/
+theorem jsonAad_present_ne_absent (p a p' : List UInt8) (hp' : (46 : UInt8) ∉ p') : p ++ [46] ++ a ≠ p' := by
+  intro h
+  apply hp'
+  rw [← h]
+  simp
+
 /-- non-vacuity: a concrete Prims instance and token for which acceptance holds -/
 def toyPrims : Prims :=
   { parseHeader := fun _ => some ⟨"dir", "A128GCM", none⟩, unwrap := fun _ _ => some [1, 2, 3],
